@@ -8,10 +8,11 @@
            actions in the protocol's fixed order add player, initialize chat, game mode, listed,
            latency, display name, list order (1.21.2+), hat (1.21.4+)).
    Part 2: the reference client state and how it applies decoded packets (vanilla's two passes).
-   Part 3: gate's encoders: [encode_upsert false] writes the per-entry data in the caller's
-           action order (Upsert.Encode today), [encode_upsert true] in the protocol's order.
-   Part 4: the proxy's tab list: state, operations, emitted packets ([tcfg] selects today's
-           behaviour or the demanded one for each recorded finding).
+   Part 3: gate's encoders: [encode_upsert true] writes the per-entry data in the protocol's
+           order (Upsert.Encode as it is now), [encode_upsert false] in the caller's action order
+           (Upsert.Encode before fix commit d54f770).
+   Part 4: the proxy's tab list: state, operations, emitted packets ([tcfg] selects, per repaired
+           finding, the pre-fix behaviour or the one of the code as it is now).
    Part 5: histories: what the viewer receives, the proxy's view, the client's state. *)
 From Coq Require Import List NArith ZArith Bool.
 From Verif Require Import Base.Hex Base.Assoc.
@@ -408,8 +409,8 @@ Definition bits_of (order : list N) : N :=
   fold_left (fun acc a => if mem a order then acc + 2 ^ a else acc) all_actions 0.
 Definition canonical (order : list N) : list N := filter (fun a => mem a order) all_actions.
 
-(* Upsert.Encode: [canon = false] is today's "for _, action := range u.ActionSet",
-   [canon = true] iterates UpsertActions filtered by membership (fixes/C07-1.diff) *)
+(* Upsert.Encode: [canon = true] iterates UpsertActions filtered by membership (the code as it is now,
+   fix commit d54f770); [canon = false] is the pre-fix "for _, action := range u.ActionSet" *)
 Definition encode_upsert (canon : bool) (order : list N) (es : list dentry) : bytes :=
   [bits_of order] ++ enc_varint (Z.of_nat (length es)) ++
   flat_map (fun e => enc_uuid (d_id e) ++
@@ -446,12 +447,14 @@ Inductive tret := TOk | TErr | TPanic.
 (* structured packet: actions in the order gate's code lists them *)
 Inductive spkt := SUpsert (order : list N) (es : list dentry) | SRemove (ids : list N).
 
-(* which recorded findings are repaired (all true: the demanded behaviour) *)
+(* which findings are repaired (all true: the demanded behaviour = the code as it is now since the
+   fix commits d54f770 (C28-1 = C07-1), d5f50a6 (C28-2), eb9ac68 (C28-3); false: the pre-fix code) *)
 Record tcfg := mkT { canon : bool;      (* C28-1 / C07-1: canonical action order on the wire *)
                      nilcheck : bool;   (* C28-2: re-adding the held entry is a no-op instead of a panic *)
                      readd : bool }.    (* C28-3: a changed profile is sent as remove + add *)
-Definition spec_tcfg := mkT true true true.
-Definition impl_tcfg := mkT false false false.
+Definition spec_tcfg := mkT true true true.    (* what the property demands *)
+Definition impl_tcfg := mkT true true true.    (* the code as it is now (after d54f770, d5f50a6, eb9ac68) *)
+Definition old_tcfg := mkT false false false.  (* PRE-FIX code, kept for the refutation lemmas *)
 
 Definition pstate := amap pattrs.
 Definition dn_bytes (tbl : list bytes) (i : N) : bytes := nth (N.to_nat i) tbl [].
